@@ -359,13 +359,13 @@ Section Importer.
         let tr := if g_no_transcripts g then Ok []
                   else match extent g st t with
                        | Some x => Ok [mk TRANSCRIPT [(g_tkey g, [t]); (g_gkey g, [gn])] x]
-                       | None => Err EValue
+                       | None => Err EType    (* bins(None, None): only for '.' coordinates - the pairs come from subfeature children *)
                        end in
         let ge := if g_no_genes g then Ok []
                   else if match last_gene with Some l => str_eqb l gn | None => false end then Ok []
                   else match extent g st gn with
                        | Some x => Ok [mk GENE [(g_gkey g, [gn])] x]
-                       | None => Err EValue
+                       | None => Ok []        (* no subfeature is filed under this gene id: nothing to infer (F26) *)
                        end in
         match tr, ge, derive g st ps' (Some gn) with
         | Ok a, Ok b, Ok c => Ok (a ++ b ++ c)
